@@ -82,7 +82,8 @@ class ConcreteEngine:
 
     def choice(self, name, options):
         if name not in self.choices:
-            raise Unrepresentable('choice ' + name)
+            # choice made after the point the counterexample was taken: any option will do
+            return options[0]
         return options[self.choices[name]]
 
     def assume(self, cond):
